@@ -26,3 +26,6 @@ class OverwriteClassesWrapper(KDWrapper):
         if torch.is_tensor(cls):
             cls = cls.item()
         return cls
+
+    def getall_class(self):
+        return [self.getitem_class(idx) for idx in range(len(self))]
